@@ -329,6 +329,10 @@ def replay(path):
         o = [x for x in res["obl"] if x["name"] == rep["obligation"]]
         print(f"obligation {rep['obligation']}\n  stored: expected {rep.get('expected')!r} actual {rep.get('actual')!r} at {rep.get('point')}\n  stored verifier output: {str(rep.get('verifier_output'))[:500]}")
         if not o:
+            if rep.get("bounded") and not res.get("error"):
+                # a failing bounded stand-in raises an obligation only while it fails (never counted otherwise)
+                print("  => bounded stand-in passes now (no failing evaluation)")
+                return 0
             print("  => obligation no longer generated")
             return 3
         print(f"  now: {o[0]['status']} ({o[0]['backend']}) {o[0]['detail'][:500]}")
